@@ -27,7 +27,8 @@ import vcheck
 LEVEL = "proof"
 
 MODEL_FILES = ["Overrides/F64.v", "Overrides/Spec.v", "Overrides/Model.v", "Overrides/FloatProofs.v",
-               "Overrides/FloatProofs32.v", "Overrides/FloatLink.v", "Overrides/Proofs.v", "Overrides/GenOblig.v"]
+               "Overrides/FloatProofs32.v", "Overrides/FloatLink.v", "Overrides/Proofs.v", "Overrides/FloatDiv.v",
+               "Overrides/DivProofs.v", "Overrides/GenOblig.v"]
 
 
 # ------------------------------------------------------------------ helpers
@@ -785,7 +786,7 @@ def run(ctx):
     rng = ctx.rng.fork("c14")
     nconv, badconv = goconv_tie(ctx, tools, exe, rng.fork("conv"), ctx.scale(400, 20000))
     # programs
-    n = ctx.scale(500, 60000)
+    n = ctx.scale(400, 40000)
     cases = []
     for i in range(n):
         kind = ["unit", "unit", "mixed", "values", "mixed"][i % 5]
@@ -793,7 +794,7 @@ def run(ctx):
     for c in handmade():
         c.id = len(cases)
         cases.append(c)
-    for pr in G.matrix_programs():
+    for pr in G.matrix_programs(full=ctx.thorough):
         cases.append(Case(len(cases), pr))
     jobs = [{"id": c.id, "src": c.prog["src"], "data": {"consts": [[k, str(b)] for k, b in c.prog["vmap"]],
                                                          "paths": ["po", "backends", "glsl", "msl"]}} for c in cases]
